@@ -50,7 +50,7 @@ def cases(tier, seed):
     n_real = 12 if tier == "quick" else 200
     for i in range(n_real):
         out.append(dict(part="real", seed=seed, i=i))
-    n_dup = 6 if tier == "quick" else 40
+    n_dup = 12 if tier == "quick" else 40
     for i in range(n_dup):
         out.append(dict(part="dup", seed=seed, i=i))
     return out
@@ -331,17 +331,26 @@ def run_dup(spec):
     rng = gen.rng_for(spec["seed"], PROPERTY, spec["i"], salt=41)
     rep_rows = feed[feed.percent_expected_vote >= 100]
     dup = rep_rows.iloc[[int(rng.integers(0, len(rep_rows)))]]
-    feed2 = pd.concat([feed, dup]).reset_index(drop=True)
+    # the reporting unit can appear twice because the live feed lists it twice, or because the baseline does (the
+    # join then yields it twice among the modelled reporting units although the feed is clean)
+    where = ["feed", "baseline"][(spec["i"] // 3) % 2]
+    feed2 = feed
+    if where == "feed":
+        feed2 = pd.concat([feed, dup]).reset_index(drop=True)
+    else:
+        f_ = dup.geographic_unit_fips.iloc[0]
+        el.pre = pd.concat([el.pre, el.pre[el.pre.geographic_unit_fips == f_]]).reset_index(drop=True)
     with harness.patched() as p:
         harness.fast_boot_sigma(p, 50)
         res, exc = harness.run_estimates(el, feed2, call)
     out["counters"]["duplicate_runs"] = 1
+    out["counters"][f"duplicate_in_{where}"] = 1
     outcome = "ok" if exc is None else type(exc).__name__
     if not (exc is not None and type(exc) is cm.ModelClientException):
-        out["violations"].append(dict(key=f"C14/duplicate-reporting-id/{estimator}/{outcome}",
-                                      msg=f"{estimator}: duplicated reporting unit id gave {outcome} "
+        out["violations"].append(dict(key=f"C14/duplicate-reporting-id/in-{where}/{estimator}/{outcome}",
+                                      msg=f"{estimator}: reporting unit id duplicated in the {where} gave {outcome} "
                                           f"({harness.exc_info(exc)['msg'] if exc else ''})", witness={}))
-    out["sigs"].append(["dup", estimator, outcome])
+    out["sigs"].append(["dup", where, estimator, outcome])
     out["nontrivial"] = True
     return out
 
